@@ -159,4 +159,317 @@ theorem recordCapture_length (n : α) (l k : Nat) (cs : List (Scope α)) :
   | zero => simp [recordCapture]
   | succ k ih => cases cs <;> simp [recordCapture, ih]
 
+
+/-! ### the simulation -/
+
+/-- how one context entry looks after the renaming: the entry of the renamed binding (location
+`d`) carries the new name, every other entry is unchanged. -/
+def rnE (d : Nat) (new : α) (e : α × Nat) : α × Nat := (if e.2 = d then new else e.1, e.2)
+
+def rnCtx (d : Nat) (new : α) (ls : List (Scope α)) : List (Scope α) := ls.map (List.map (rnE d new))
+
+theorem rnCtx_flatten (d : Nat) (new : α) (ls : List (Scope α)) :
+    (rnCtx d new ls).flatten = ls.flatten.map (rnE d new) := by
+  simp [rnCtx, List.map_flatten]
+
+/-- invariant of the original run -/
+structure RInv (d : Nat) (old new : α) (st : St α) : Prop where
+  fresh : ∀ (e : α × Nat), e ∈ st.locals.flatten → e.1 ≠ new
+  atd : ∀ (e : α × Nat), e ∈ st.locals.flatten → e.2 = d → e.1 = old
+  nodup : (ctxNames st.locals).Nodup
+
+/-- relation between the original run and the run of the renamed module -/
+structure Rel (d : Nat) (new : α) (st st' : St α) : Prop where
+  locals : st'.locals = rnCtx d new st.locals
+  capLen : st'.captured.length = st.captured.length
+  useDef : st'.useDef = st.useDef
+  invalid : st'.invalid = st.invalid
+  defLocs : st'.defLocs = st.defLocs
+  errors : st'.errors = st.errors
+  unbound : st'.unbound = st.unbound
+  underflow : st'.underflow = st.underflow
+  scopedDefs : st'.scopedDefs = st.scopedDefs.map (fun e => (e.1, List.map (rnE d new) e.2))
+
+/-- what the statement of C15 assumes about one event, in the state in which it is executed:
+the new name is fresh; the module is accepted by scope analysis (no collision, every use
+resolves); `S` is the binding `d` (named `old`) and exactly the occurrences resolving to it. -/
+def evOK (S : List Nat) (d : Nat) (old new : α) (st : St α) : Ev α → Prop
+  | .define n l => n ≠ new ∧ (l ∈ S ↔ l = d) ∧ (l = d → n = old) ∧ previousDef n st.locals = none
+  | .use n l _ => n ≠ new ∧
+      (match lookupCtx n st.locals with
+       | some r => (l ∈ S ↔ r.2 = d)
+       | none => False)
+  | _ => True
+
+def Admissible (S : List Nat) (d : Nat) (old new : α) : List (Ev α) → St α → Prop
+  | [], _ => True
+  | ev :: evs, st => evOK S d old new st ev ∧ Admissible S d old new evs (step st ev)
+
+theorem filter_ne_self {s : List (α × Nat)} {n : α} (h : n ∉ names s) :
+    s.filter (fun e => e.1 ≠ n) = s := by
+  rw [List.filter_eq_self]
+  intro e he
+  have : e.1 ≠ n := fun h' => h (h' ▸ List.mem_map_of_mem (f := Prod.fst) he)
+  simpa using this
+
+theorem insertKV_fresh {s : List (α × Nat)} {n : α} (l : Nat) (h : n ∉ names s) :
+    insertKV n l s = (n, l) :: s := by
+  simp only [insertKV, filter_ne_self h]
+
+theorem insertKV_val_map {ν μ : Type} (g : ν → μ) (k : Nat) (v : ν) (m : List (Nat × ν)) :
+    insertKV k (g v) (m.map fun e => (e.1, g e.2)) = (insertKV k v m).map fun e => (e.1, g e.2) := by
+  simp only [insertKV, List.map_cons, List.filter_map]
+  congr 1
+
+theorem step_sim (S : List Nat) (d : Nat) (old new : α) (st st' : St α) (ev : Ev α)
+    (hi : RInv d old new st) (hr : Rel d new st st') (hok : evOK S d old new st ev) :
+    Rel d new (step st ev) (step st' (renameEv S new ev)) ∧ RInv d old new (step st ev) := by
+  obtain ⟨locals', captured', unbound', invalid', useDef', defLocs', scopedDefs', lambdaCaps', errors', underflow'⟩ := st'
+  obtain ⟨h1, h2, h3, h4, h5, h6, h7, h8, h9⟩ := hr
+  simp only at h1 h2 h3 h4 h5 h6 h7 h8 h9
+  subst h1 h3 h4 h5 h6 h7 h8 h9
+  cases ev with
+  | push =>
+    refine ⟨⟨by simp [step, renameEv, rnCtx], by simp [step, renameEv, h2], rfl, rfl, rfl, rfl, rfl, rfl, rfl⟩, ?_⟩
+    exact ⟨by simpa [step] using hi.fresh, by simpa [step] using hi.atd, by simpa [step, ctxNames] using hi.nodup⟩
+  | pop k loc =>
+    obtain ⟨locals, captured, unbound, invalid, useDef, defLocs, scopedDefs, lambdaCaps, errors, underflow⟩ := st
+    obtain ⟨hfresh, hatd, hnodup⟩ := hi
+    simp only at hfresh hatd hnodup h2
+    simp only [step, renameEv]
+    cases locals with
+    | nil =>
+      exact ⟨⟨by simp [rnCtx], h2, rfl, rfl, rfl, rfl, rfl, rfl, rfl⟩, ⟨hfresh, hatd, hnodup⟩⟩
+    | cons l ls =>
+      cases captured with
+      | nil =>
+        have : captured' = [] := by simpa using h2
+        subst this
+        exact ⟨⟨by simp [rnCtx], rfl, rfl, rfl, rfl, rfl, rfl, rfl, rfl⟩, ⟨hfresh, hatd, hnodup⟩⟩
+      | cons c cs =>
+        cases captured' with
+        | nil => simp at h2
+        | cons c' cs' =>
+          have hlen : cs'.length = cs.length := by simpa using h2
+          have hfl : ∀ e, e ∈ ls.flatten → e ∈ (l :: ls).flatten := by
+            intro e he; simp only [List.flatten_cons, List.mem_append]; exact Or.inr he
+          have hnd : (ctxNames ls).Nodup := by
+            simp only [ctxNames, names, List.flatten_cons, List.map_append] at hnodup ⊢
+            exact (List.nodup_append.mp hnodup).2.1
+          simp only [rnCtx, List.map_cons]
+          rcases k with _ | _ | _
+          · exact ⟨⟨by simp [rnCtx], hlen, rfl, rfl, rfl, rfl, rfl, rfl, rfl⟩,
+              ⟨fun e he => hfresh e (hfl e he), fun e he => hatd e (hfl e he), hnd⟩⟩
+          · exact ⟨⟨by simp [rnCtx], hlen, rfl, rfl, rfl, rfl, rfl, rfl,
+              by simp [insertKV_val_map (List.map (rnE d new))]⟩,
+              ⟨fun e he => hfresh e (hfl e he), fun e he => hatd e (hfl e he), hnd⟩⟩
+          · exact ⟨⟨by simp [rnCtx], hlen, rfl, rfl, rfl, rfl, rfl, rfl,
+              by simp [insertKV_val_map (List.map (rnE d new))]⟩,
+              ⟨fun e he => hfresh e (hfl e he), fun e he => hatd e (hfl e he), hnd⟩⟩
+  | define n l =>
+    obtain ⟨hn, hS, hd, hp⟩ := hok
+    have hnot : n ∉ ctxNames st.locals := (previousDef_none_iff n st.locals).mp hp
+    -- the renamed name is not bound in the renamed context either
+    have hnot' : (if l ∈ S then new else n) ∉ ctxNames (rnCtx d new st.locals) := by
+      simp only [ctxNames, rnCtx_flatten, names, List.map_map, List.mem_map, not_exists, not_and]
+      intro e he
+      have hfr := hi.fresh e he
+      have hne : e.1 ≠ n := fun h' => hnot (by
+        simp only [ctxNames, names, List.mem_map]; exact ⟨e, he, h'⟩)
+      by_cases hl : l ∈ S
+      · have hld := hS.mp hl
+        have hno := hd hld
+        simp only [hl, if_true, Function.comp, rnE]
+        by_cases hed : e.2 = d
+        · exact absurd (hi.atd e he hed) (hno ▸ hne)
+        · simpa [hed] using hfr
+      · simp only [hl, if_false, Function.comp, rnE]
+        by_cases hed : e.2 = d
+        · simpa [hed] using fun h' : new = n => hn h'.symm
+        · simpa [hed] using hne
+    have hp' : previousDef (if l ∈ S then new else n) (rnCtx d new st.locals) = none :=
+      (previousDef_none_iff _ _).mpr hnot'
+    have hrn : rnE d new (n, l) = (if l ∈ S then new else n, l) := by
+      by_cases hl : l ∈ S
+      · have hld : l = d := hS.mp hl
+        have hds : d ∈ S := hld ▸ hl
+        simp [rnE, hld, hds]
+      · have : ¬ l = d := fun h' => hl (hS.mpr h')
+        simp [rnE, hl, this]
+    have hins : insertLocal (if l ∈ S then new else n) l (rnCtx d new st.locals)
+        = rnCtx d new (insertLocal n l st.locals) := by
+      cases hl : st.locals with
+      | nil => simp [rnCtx, insertLocal]
+      | cons s rest =>
+        have hs : n ∉ names s := fun h' => hnot (by
+          rw [hl]; simp only [ctxNames, names, List.flatten_cons, List.map_append, List.mem_append]
+          exact Or.inl h')
+        have hs' : (if l ∈ S then new else n) ∉ names (List.map (rnE d new) s) := fun h' => hnot' (by
+          rw [hl]; simp only [ctxNames, rnCtx, names, List.map_cons, List.flatten_cons, List.map_append,
+            List.mem_append]
+          exact Or.inl h')
+        simp only [rnCtx, List.map_cons, insertLocal, insertKV_fresh l hs, insertKV_fresh l hs', hrn]
+    refine ⟨?_, ?_⟩
+    · simp only [step, renameEv, defineId, hp, hp', hins]
+      exact ⟨rfl, h2, rfl, rfl, rfl, rfl, rfl, rfl, rfl⟩
+    · simp only [step, defineId, hp]
+      cases hl : st.locals with
+      | nil =>
+        simp only [insertLocal]
+        exact ⟨by simp, by simp, by simp [ctxNames, names]⟩
+      | cons s rest =>
+        have hs : n ∉ names s := fun h' => hnot (by
+          rw [hl]; simp only [ctxNames, names, List.flatten_cons, List.map_append, List.mem_append]
+          exact Or.inl h')
+        have hfl : (insertKV n l s :: rest).flatten = (n, l) :: st.locals.flatten := by
+          rw [hl, insertKV_fresh l hs]; simp
+        simp only [insertLocal]
+        refine ⟨?_, ?_, ?_⟩
+        · intro e he
+          rw [hfl] at he
+          rcases List.mem_cons.mp he with rfl | h'
+          · exact hn
+          · exact hi.fresh e h'
+        · intro e he hed
+          rw [hfl] at he
+          rcases List.mem_cons.mp he with rfl | h'
+          · exact hd hed
+          · exact hi.atd e h' hed
+        · simp only [ctxNames, hfl, names, List.map_cons, List.nodup_cons]
+          exact ⟨hnot, hi.nodup⟩
+  | use n l ft =>
+    obtain ⟨hn, hres⟩ := hok
+    cases hlk : lookupCtx n st.locals with
+    | none => simp [hlk] at hres
+    | some r =>
+      obtain ⟨k, l0⟩ := r
+      simp only [hlk] at hres
+      have hmem : (n, l0) ∈ st.locals.flatten := lookupCtx_mem hlk
+      have hlk' : lookupCtx (if l ∈ S then new else n) (rnCtx d new st.locals) = some (k, l0) := by
+        rw [← hlk]
+        apply lookupCtx_relabel (rnE d new) (fun e => rfl)
+        intro e he
+        have hfr := hi.fresh e he
+        by_cases hl : l ∈ S
+        · have hl0 : l0 = d := hres.mp hl
+          have hno : n = old := hi.atd (n, l0) hmem hl0
+          simp only [hl, if_true, rnE]
+          by_cases hed : e.2 = d
+          · simp [hed, hi.atd e he hed, hno]
+          · simp only [hed, if_false]
+            constructor
+            · intro h'; exact absurd h' hfr
+            · intro h'
+              have : e = (n, e.2) := by rw [← h']
+              have := names_unique hi.nodup (this ▸ he) hmem
+              exact absurd (this.trans hl0) hed
+        · have hl0 : ¬ l0 = d := fun h' => hl (hres.mpr h')
+          simp only [hl, if_false, rnE]
+          by_cases hed : e.2 = d
+          · simp only [hed, if_true]
+            constructor
+            · intro h'; exact absurd h'.symm hn
+            · intro h'
+              have : e = (n, e.2) := by rw [← h']
+              have := names_unique hi.nodup (this ▸ he) hmem
+              exact absurd (this.symm.trans hed) hl0
+          · simp [hed]
+      refine ⟨?_, ?_⟩
+      · simp only [step, renameEv, useId, hlk, hlk']
+        refine ⟨rfl, ?_, rfl, rfl, rfl, rfl, rfl, rfl, rfl⟩
+        cases ft <;> simp [recordCapture_length, h2]
+      · simp only [step, useId, hlk]
+        exact ⟨hi.fresh, hi.atd, hi.nodup⟩
+
+theorem run_sim (S : List Nat) (d : Nat) (old new : α) (evs : List (Ev α)) (st st' : St α)
+    (hi : RInv d old new st) (hr : Rel d new st st') (hok : Admissible S d old new evs st) :
+    Rel d new (run evs st) (run (renameAt S new evs) st') := by
+  induction evs generalizing st st' with
+  | nil => exact hr
+  | cons ev evs ih =>
+    obtain ⟨h1, h2⟩ := hok
+    obtain ⟨hr', hi'⟩ := step_sim S d old new st st' ev hi hr h1
+    simp only [run, renameAt, List.map_cons, List.foldl_cons] at ih ⊢
+    exact ih _ _ hi' hr' h2
+
+instance decEvOK (S : List Nat) (d : Nat) (old new : α) (st : St α) (ev : Ev α) :
+    Decidable (evOK S d old new st ev) := by
+  cases ev <;> simp only [evOK] <;> (try split) <;> infer_instance
+
+instance decAdmissible (S : List Nat) (d : Nat) (old new : α) :
+    ∀ (evs : List (Ev α)) (st : St α), Decidable (Admissible S d old new evs st)
+  | [], _ => isTrue trivial
+  | ev :: evs, st =>
+    have := decAdmissible S d old new evs (step st ev)
+    by simp only [Admissible]; infer_instance
+
+/-! ### the tree renamer commutes with the traversal -/
+
+mutual
+theorem visit_renameAt (S : List Nat) (new : α) :
+    ∀ n : Node α, visit (Node.renameAt S new n) = renameAt S new (visit n)
+  | .mk tag name loc kids => by
+    have hk := visitList_renameAt S new kids
+    match kids with
+    | [] =>
+      by_cases hS : loc ∈ S <;> cases tag <;> cases name <;>
+        simp [visit, Node.renameAt, Node.renameAtList, visitList, usesList, renameAt, renameEv, hS]
+    | [k1] =>
+      have h1 := visit_renameAt S new k1
+      by_cases hS : loc ∈ S <;> cases tag <;> cases name <;>
+        simp_all [visit, Node.renameAt, Node.renameAtList, visitList, usesList, renameAt, renameEv]
+    | [k1, k2] =>
+      have h1 := visit_renameAt S new k1
+      have h2 := visit_renameAt S new k2
+      have u2 := uses_renameAt S new k2
+      by_cases hS : loc ∈ S <;> cases tag <;> cases name <;>
+        simp_all [visit, Node.renameAt, Node.renameAtList, visitList, usesList, renameAt, renameEv]
+    | [k1, k2, k3] =>
+      have h1 := visit_renameAt S new k1
+      have h2 := visit_renameAt S new k2
+      have h3 := visit_renameAt S new k3
+      have u := usesList_renameAt S new [k2, k3]
+      by_cases hS : loc ∈ S <;> cases tag <;> cases name <;>
+        simp_all [visit, Node.renameAt, Node.renameAtList, visitList, usesList, renameAt, renameEv]
+    | [k1, k2, k3, k4] =>
+      have h1 := visit_renameAt S new k1
+      have h2 := visit_renameAt S new k2
+      have h3 := visit_renameAt S new k3
+      have h4 := visit_renameAt S new k4
+      have u := usesList_renameAt S new [k2, k3, k4]
+      by_cases hS : loc ∈ S <;> cases tag <;> cases name <;>
+        simp_all [visit, Node.renameAt, Node.renameAtList, visitList, usesList, renameAt, renameEv]
+    | k1 :: k2 :: k3 :: k4 :: k5 :: ks =>
+      have h1 := visit_renameAt S new k1
+      have u := usesList_renameAt S new (k2 :: k3 :: k4 :: k5 :: ks)
+      by_cases hS : loc ∈ S <;> cases tag <;> cases name <;>
+        simp_all [visit, Node.renameAt, Node.renameAtList, visitList, usesList, renameAt, renameEv]
+theorem visitList_renameAt (S : List Nat) (new : α) : ∀ ks : List (Node α),
+    visitList (Node.renameAtList S new ks) = renameAt S new (visitList ks)
+  | [] => by simp [visitList, Node.renameAtList, renameAt]
+  | k :: ks => by
+    have h1 := visit_renameAt S new k
+    have h2 := visitList_renameAt S new ks
+    simp_all [visitList, Node.renameAtList, renameAt]
+theorem uses_renameAt (S : List Nat) (new : α) :
+    ∀ n : Node α, uses (Node.renameAt S new n) = renameAt S new (uses n)
+  | .mk tag name loc kids => by
+    have hu := usesList_renameAt S new kids
+    by_cases hS : loc ∈ S <;> cases tag <;> cases name <;>
+      simp_all [uses, Node.renameAt, renameAt, renameEv]
+theorem usesList_renameAt (S : List Nat) (new : α) : ∀ ks : List (Node α),
+    usesList (Node.renameAtList S new ks) = renameAt S new (usesList ks)
+  | [] => by simp [usesList, Node.renameAtList, renameAt]
+  | k :: ks => by
+    have h1 := uses_renameAt S new k
+    have h2 := usesList_renameAt S new ks
+    simp_all [usesList, Node.renameAtList, renameAt]
+end
+
+theorem rinv_init (d : Nat) (old new : α) : RInv d old new (init : St α) :=
+  ⟨by simp [init], by simp [init], by simp [init, ctxNames, names]⟩
+
+theorem rel_init (d : Nat) (new : α) : Rel d new (init : St α) init :=
+  ⟨by simp [init, rnCtx], rfl, rfl, rfl, rfl, rfl, rfl, rfl, by simp [init]⟩
+
 end SamVerif.Scope
